@@ -236,7 +236,13 @@ def main(tier, replay):
     with cf.ProcessPoolExecutor(max_workers=common.NCPU) as ex:
         outs = list(ex.map(run, jobs, chunksize=8))
     cases, meta = [], []
+    if sum(1 for o in outs if "exc" in o and "non-finite" in o["exc"]) > max(2, len(outs) // 50):
+        ck.vacuity("vacuity: more than 2 % of the metric cases evaluate to a non-finite value")
     for o in outs:
+        if "exc" in o and "non-finite value cannot be logged" in o["exc"]:
+            # a formula whose denominator is exactly zero on the synthetic tables (x/0): undefined, not asserted
+            ck.count("degenerate_division_by_zero")
+            continue
         if "exc" in o:
             ck.violation("C20.run", "%s :: %s" % (o["kind"], o["exc"]), {"kind": o["kind"], "seed": o["seed"]})
             continue
